@@ -84,8 +84,18 @@ def build(ctx=None):
 def coqc(path, extra_q=(), timeout=600, cwd=None):
     """compile one file; returns (rc, stdout+stderr)"""
     cmd = ["timeout", str(timeout), "coqc"] + COQ_Q + list(extra_q) + [path]
-    p = subprocess.run(cmd, capture_output=True, text=True, cwd=cwd)
+    p = subprocess.run(cmd, capture_output=True, text=True, cwd=cwd, preexec_fn=_big_stack)
     return p.returncode, p.stdout + p.stderr
+
+
+def _big_stack():
+    """coqc overflows the default 8 MB stack on list literals of some 50 000 elements (kernel_sample case files)"""
+    import resource
+    try:
+        hard = resource.getrlimit(resource.RLIMIT_STACK)[1]
+        resource.setrlimit(resource.RLIMIT_STACK, (hard, hard))
+    except (ValueError, OSError):
+        pass
 
 
 _THM_RE = re.compile(r"^\s*(Theorem|Lemma|Corollary)\s+([A-Za-z0-9_']+)", re.M)
@@ -214,6 +224,17 @@ class Model:
                     answers[idx] = json.loads(results[i][k])
                 except (ValueError, IndexError):
                     answers[idx] = {"driver_error": results[i][k] if k < len(results[i]) else "missing"}
+        # a driver process that died (killed under memory pressure, ...) loses the rest of its shard:
+        # re-run those requests one by one in fresh processes before reporting a driver error
+        for idx, a in enumerate(answers):
+            if isinstance(a, dict) and "driver_error" in a:
+                p = subprocess.run([DRIVER], input=lines[idx] + "\n", capture_output=True, text=True)
+                out = p.stdout.split("\n")[0]
+                try:
+                    answers[idx] = json.loads(out)
+                    self.raw[idx] = out
+                except ValueError:
+                    answers[idx] = {"driver_error": out or ("exit status %s" % p.returncode)}
         return answers
 
 
